@@ -256,7 +256,7 @@ fn c03_positions(quick: bool) -> Vec<Pos> {
     v.extend(many_move_positions());
     v.extend(perft_roots().into_iter().map(|x| x.1).filter(|p| p.piece_count() <= 12));
     let fams = [f3(), fcastle(false), fep(false), fpromo(), fmate()];
-    let (stride, step) = if quick { (29, 23) } else { (7, 11) };
+    let (stride, step) = if quick { (29, 37) } else { (7, 11) };
     v.extend(collect_families(&fams, stride).into_iter().step_by(step));
     v
 }
@@ -358,9 +358,12 @@ pub fn run_c03(ctx: &Ctx) -> i32 {
                                 Some(c) => vec![(a, d1), (b, d2), (c, d2)],
                                 None => vec![(a, d1), (b, d2)],
                             };
-                            let mut artifact = Some(small_artifact(7, (2, 64)));
+                            // a roomy table, and (for pairs) a crowded one whose buckets are
+                            // full of the first search's entries when the second one starts
+                            for shape in if c.is_none() { vec![(2usize, 64usize), (1, 2)] } else { vec![(2usize, 64usize)] } {
+                            let mut artifact = Some(small_artifact(7, shape));
                             let mut hist: Vec<String> = Vec::new();
-                            for (vi, d) in seq {
+                            for (vi, d) in seq.clone() {
                                 let cfg = Cfg { seed: 3, depth: Some(d), workers: Some(1), plan: None };
                                 let run = run_search(&vars[vi], &cfg, artifact.take());
                                 l.inc("history_searches");
@@ -371,6 +374,7 @@ pub fn run_c03(ctx: &Ctx) -> i32 {
                                 artifact = run.artifact;
                             }
                             l.inc("histories");
+                            }
                         }
                     }
                 }
@@ -440,6 +444,44 @@ pub fn run_c03(ctx: &Ctx) -> i32 {
             }
         });
     }
+    // (b3) stepping back one ply: a successor is searched first, then its parent on the same
+    // artifact - the parent's best move may well re-enter the recorded successor (the weaker
+    // side likes the repetition); a report with a non-empty legal line is still owed
+    {
+        let tb = Tablebase::build(threads());
+        let mut parents: Vec<Pos> = Vec::new();
+        for k in [QUEEN, ROOK] {
+            for (i, (p, v)) in tb.positions(k).enumerate() {
+                // the bare king to move (lost or drawn for it)
+                if !p.wtm && matches!(v, Val::Loss(_) | Val::Draw) && p.has_legal_move() && i % (if quick { 3989 } else { 149 }) == 0 {
+                    parents.push(p.mirror());
+                    parents.push(p);
+                }
+            }
+        }
+        ctx.add("step_back_parents", parents.len() as u64);
+        par_for(ctx, &parents, |p, l| {
+            for (m, child) in p.legal() {
+                if !child.has_legal_move() {
+                    continue;
+                }
+                for (d1, d2) in [(1usize, 1usize), (2, 2), (2, 3)] {
+                    let c1 = Cfg { seed: 2, depth: Some(d1), workers: Some(1), plan: None };
+                    let r1 = run_search(&child, &c1, Some(small_artifact(3, (2, 64))));
+                    l.inc("history_searches");
+                    if !check_run(ctx, "history-", &child, &c1, &r1, true, &[]) {
+                        return;
+                    }
+                    let c2 = Cfg { seed: 4, depth: Some(d2), workers: Some(1), plan: None };
+                    let r2 = run_search(p, &c2, r1.artifact);
+                    l.inc("history_searches");
+                    if !check_run(ctx, "history-", p, &c2, &r2, true, &[format!("{} depth {} (the position after {})", child.fen(), d1, m.lan())]) {
+                        return;
+                    }
+                }
+            }
+        });
+    }
     // (c) public entry point on a handful (three real threads, default-shaped table via env)
     {
         std::env::set_var("WEECHESS_VERIF_TT_MB", "1");
@@ -484,7 +526,7 @@ pub fn run_c03(ctx: &Ctx) -> i32 {
         searches,
         ctx.get("reported_lines") + ctx.get("history_searches") + schedules,
         exh,
-        &format!("{}{}", "inputs: every position of a strided complete sub-family of F3/Fcastle/Fep/Fpromo/Fmate plus the adversarial corpus x depth 1..3 (thorough 4) x seeds {0,1,VERIF_SEED} x table shapes {2x64, 1x1} x workers {1,2}; histories: for each collision placement every legal (rights subset, ep on/off, side) variant and every ordered pair (thorough: triple) of variants x depth pairs searched in sequence on one carried artifact; twins below the root (a position with another en-passant state searched first, then every parent one pawn step away from that placement); every reported line replayed move by move on the reference model", LOOM_RULE),
+        &format!("{}{}", "inputs: every position of a strided complete sub-family of F3/Fcastle/Fep/Fpromo/Fmate plus the adversarial corpus x depth 1..3 (thorough 4) x seeds {0,1,VERIF_SEED} x table shapes {2x64, 1x1} x workers {1,2}; histories: for each collision placement every legal (rights subset, ep on/off, side) variant and every ordered pair (thorough: triple) of variants x depth pairs searched in sequence on one carried artifact; twins below the root (a position with another en-passant state searched first, then every parent one pawn step away from that placement); stepping back one ply (every successor of a bare-king position searched first, then the parent on the same artifact); every reported line replayed move by move on the reference model", LOOM_RULE),
         ASSUME,
     )
 }
@@ -707,6 +749,57 @@ pub fn run_c04(ctx: &Ctx) -> i32 {
             }
         }
     }
+    // (e) the artifact of one search seeds the next, along a game: every position of a game
+    // line is searched in turn on one artifact whose tables are small enough to be full
+    // after the first search (every bucket holds entries of other positions, of every depth).
+    // All depth sequences over {1,2,3} of the given length after a deeper first search.
+    {
+        let lines: Vec<(&str, Vec<&str>)> = vec![
+            ("rnbqkbnr/pppppppp/8/8/8/8/PPPPPPPP/RNBQKBNR w KQkq - 0 1", vec!["e2e4", "e7e5", "g1f3", "b8c6", "f1b5", "a7a6"]),
+            ("8/8/8/4k3/8/8/3QK3/8 w - - 0 1", vec!["d2d3", "e5f4", "d3d4", "f4g5", "e2f3", "g5h5"]),
+            ("r3k2r/p1ppqpb1/bn2pnp1/3PN3/1p2P3/2N2Q1p/PPPBBPPP/R3K2R w KQkq - 0 1", vec!["e1g1", "e8c8", "d5e6", "d7e6"]),
+        ];
+        let shapes: Vec<(usize, usize)> = if quick { vec![(1, 1), (3, 16)] } else { vec![(1, 1), (1, 2), (2, 2), (3, 16), (2, 64)] };
+        let first_depths: Vec<usize> = if quick { vec![4] } else { vec![3, 4, 5] };
+        let tail_len = if quick { 3 } else { 4 };
+        let mut seqs: Vec<Vec<usize>> = vec![vec![]];
+        for _ in 0..tail_len {
+            seqs = seqs.into_iter().flat_map(|s| (1..=3usize).map(move |d| { let mut t = s.clone(); t.push(d); t })).collect();
+        }
+        let mut work3: Vec<(usize, (usize, usize), usize, Vec<usize>)> = Vec::new();
+        for li in 0..lines.len() {
+            for &sh in &shapes {
+                for &fd in &first_depths {
+                    for sq in &seqs {
+                        work3.push((li, sh, fd, sq.clone()));
+                    }
+                }
+            }
+        }
+        par_for(ctx, &work3, |(li, sh, fd, sq), l| {
+            let (root, moves) = &lines[*li];
+            let mut p = Pos::from_fen(root).unwrap();
+            assert!(p.is_legal_position(), "harness error: illegal root {}", root);
+            let mut artifact = Some(small_artifact(3, *sh));
+            let mut hist: Vec<String> = Vec::new();
+            for (i, d) in std::iter::once(fd).chain(sq.iter()).enumerate() {
+                let cfg = Cfg { seed: 3, depth: Some(*d), workers: Some(1), plan: None };
+                let run = run_search(&p, &cfg, artifact.take());
+                l.inc("searches");
+                l.inc("chained_searches");
+                if !check_run(ctx, "chained-", &p, &cfg, &run, true, &hist) {
+                    return;
+                }
+                hist.push(format!("{} depth {} table {:?}", p.fen(), d, sh));
+                artifact = run.artifact;
+                match moves.get(i) {
+                    Some(m) => p = p.find_lan(m).unwrap_or_else(|| panic!("harness error: {} is not legal in {}", m, p.fen())).1,
+                    None => break,
+                }
+            }
+            l.inc("chained_games");
+        });
+    }
     ctx.sample(json!({"position": menu[0].fen(), "stop_instants": "every node index 0..=N with poll interval 1, depth limits 1,2,3,none, workers 1,2", "checked": "returns, no panic, every reported line legal; with one worker at most one more node is entered after the stop"}));
     ctx.sample(json!({"position": roots[menu.len() + 2].fen(), "stop_at_node": 10000, "poll": "shipped (10000)", "checked": "returns within the step bound"}));
     let schedules = loom_part(ctx, crate::loomrun::jobs_c04(quick));
@@ -717,7 +810,7 @@ pub fn run_c04(ctx: &Ctx) -> i32 {
         ctx.get("searches") + ctx.get("stop_instant_runs") + ctx.get("shipped_interval_runs") + schedules,
         ctx.get("searches") + ctx.get("stop_instant_runs") + ctx.get("shipped_interval_runs") + schedules,
         exhaustive,
-        &format!("{}{}", "terminal roots: every checkmate and stalemate of the complete families F3 and Fmate searched at depth 1 and 3, the returned artifact then seeds a second search; stop instants: for each (position, depth limit in {1,2,3,none}, workers in {1,2}) of a menu every node index k in 0..=N at which the stop flag is raised, with the flag polled at every node; shipped poll interval: stop raised at the boundaries of the poll windows on unlimited-depth searches incl. the 3-man positions whose search tree is finite, judged by a step bound (nodes entered after the stop); three / four busy workers and the default worker count (32) stopped 10% into an iteration of >= 4*10^5 (default count: 2*10^6) nodes (every worker must notice the stop itself); protocol: the real Searcher::analyze (caller, control and search thread over the channel model) with six caller scripts x {tiny, stalemate, mate-in-1} roots x depth {1,2,none} - loom reports deadlocks and panics", LOOM_RULE),
+        &format!("{}{}", "terminal roots: every checkmate and stalemate of the complete families F3 and Fmate searched at depth 1 and 3, the returned artifact then seeds a second search; stop instants: for each (position, depth limit in {1,2,3,none}, workers in {1,2}) of a menu every node index k in 0..=N at which the stop flag is raised, with the flag polled at every node; shipped poll interval: stop raised at the boundaries of the poll windows on unlimited-depth searches incl. the 3-man positions whose search tree is finite, judged by a step bound (nodes entered after the stop); three / four busy workers and the default worker count (32) stopped 10% into an iteration of >= 4*10^5 (default count: 2*10^6) nodes (every worker must notice the stop itself); seeding: the positions of three game lines searched in turn on one artifact with tables small enough to be full after the first search, all depth sequences over {1,2,3} after a deeper first search; protocol: the real Searcher::analyze (caller, control and search thread over the channel model) with six caller scripts x {tiny, stalemate, mate-in-1} roots x depth {1,2,none} - loom reports deadlocks and panics", LOOM_RULE),
         ASSUME,
     )
 }
@@ -728,6 +821,83 @@ fn tb_value_after(tb: &Tablebase, p: &Pos, m: &Move) -> Option<Val> {
     let mv = mv_of(m);
     let (_, n) = p.legal().into_iter().find(|(lm, _)| *lm == mv)?;
     tb.probe(&n)
+}
+
+/// Promotion-key family: white king, white pawn on the seventh rank, one more white piece
+/// (Q, R, B, N), lone black king on an edge square, white to move; kept are the positions
+/// with a forced mate in exactly 3 plies all of whose mate-preserving first moves are
+/// promotions while some sibling promotion (same pawn step) does not preserve the mate.
+/// `stride` takes every stride-th placement of (white king, extra piece).
+pub fn promo_key_family(stride: usize) -> Vec<Pos> {
+    let no_draw = |_: &Pos| false;
+    let mut placements: Vec<(u8, u8, u8, u8, u8)> = Vec::new();
+    let mut i = 0usize;
+    for bk in 0..64u8 {
+        let (r, f) = (bk / 8, bk % 8);
+        if !(r == 0 || r == 7 || f == 0 || f == 7) {
+            continue;
+        }
+        for pawn in 48..56u8 {
+            for wk in 0..64u8 {
+                for xk in [QUEEN, ROOK, BISHOP, KNIGHT] {
+                    for xs in 0..64u8 {
+                        if bk == pawn || bk == wk || bk == xs || pawn == wk || pawn == xs || wk == xs {
+                            continue;
+                        }
+                        i += 1;
+                        if i % stride == 0 {
+                            placements.push((bk, pawn, wk, xk, xs));
+                        }
+                    }
+                }
+            }
+        }
+    }
+    let out: std::sync::Mutex<Vec<Pos>> = std::sync::Mutex::new(Vec::new());
+    let chunk = (placements.len() / (threads() * 8)).max(1);
+    let next = std::sync::atomic::AtomicUsize::new(0);
+    std::thread::scope(|sc| {
+        for _ in 0..threads() {
+            sc.spawn(|| loop {
+                let start = next.fetch_add(chunk, std::sync::atomic::Ordering::Relaxed);
+                if start >= placements.len() {
+                    break;
+                }
+                let mut found = Vec::new();
+                for &(bk, pawn, wk, xk, xs) in &placements[start..(start + chunk).min(placements.len())] {
+                    let mut p = Pos::empty();
+                    p.b[bk as usize] = code(false, KING);
+                    p.b[wk as usize] = code(true, KING);
+                    p.b[pawn as usize] = code(true, PAWN);
+                    p.b[xs as usize] = code(true, xk);
+                    p.wtm = true;
+                    p.full = 1;
+                    if !p.is_legal_position() {
+                        continue;
+                    }
+                    let legal = p.legal();
+                    // cheap first: some promotion after which black is mated within 2 plies,
+                    // and no mate in 1
+                    let promo_key = legal.iter().any(|(m, s)| m.promo != 0 && oracle::tb::lost_within(s, 2, &no_draw));
+                    if !promo_key || legal.iter().any(|(_, s)| !s.has_legal_move() && s.in_check(s.wtm)) {
+                        continue;
+                    }
+                    let keys = mate_preserving_moves(&p, 3, &no_draw);
+                    if keys.iter().any(|m| m.promo == 0) {
+                        continue;
+                    }
+                    let sibling_fails = legal.iter().any(|(m, _)| m.promo != 0 && !keys.contains(m) && keys.iter().any(|k| k.from == m.from && k.to == m.to));
+                    if sibling_fails {
+                        found.push(p);
+                    }
+                }
+                out.lock().unwrap().extend(found);
+            });
+        }
+    });
+    let mut v = out.into_inner().unwrap();
+    v.sort_by(|a, b| a.key().cmp(&b.key()));
+    v
 }
 
 pub fn run_c06(ctx: &Ctx) -> i32 {
@@ -877,6 +1047,41 @@ pub fn run_c06(ctx: &Ctx) -> i32 {
             }
         }
     });
+    // mates whose only keys are promotions (and a sibling promotion of the same pawn step is
+    // not a key): quick takes every 6th placement of the family, thorough all of them
+    {
+        let list: Vec<Pos> = promo_key_family(std::env::var("VERIF_PROMO_STRIDE").ok().and_then(|x| x.parse().ok()).unwrap_or(if quick { 6 } else { 1 }));
+        // quick: only the under-promotion keys (the queen promotion of that pawn step is
+        // legal, looks best at face value, and is not a key)
+        let list: Vec<Pos> = if quick { list.into_iter().filter(|p| mate_preserving_moves(p, 3, &no_draw).iter().all(|m| m.promo != QUEEN)).collect() } else { list };
+        ctx.add("promotion_key_positions", list.len() as u64);
+        par_for(ctx, &list, |p, l| {
+            let keys = mate_preserving_moves(p, 3, &no_draw);
+            assert!(!keys.is_empty() && keys.iter().all(|m| m.promo != 0) && mate_distance(p, 1, &no_draw).is_none(), "harness error: {} is not a promotion-key mate in 3", p.fen());
+            for d in 3..=(if quick { 4usize } else { 5 }) {
+                for &seed in &seeds[..if quick { 1 } else { seeds.len() }] {
+                    let cfg = Cfg { seed, depth: Some(d), workers: Some(1), plan: None };
+                    let run = run_search(p, &cfg, Some(small_artifact(seed, (4, 256))));
+                    l.inc("searches");
+                    l.inc("promotion_key_searches");
+                    if !check_run(ctx, "", p, &cfg, &run, true, &[]) {
+                        return;
+                    }
+                    let (line, eval) = run.last_best().unwrap();
+                    if eval < i32::from(Evaluation::POS_INF) {
+                        ctx.violation("forced-mate-missed", format!("{} | {}", p.fen(), cfg.json()), json!({"fen": p.fen(), "config": cfg.json(), "mate_in_plies": 3, "only_keys": keys.iter().map(|m| m.lan()).collect::<Vec<_>>(), "evaluation": eval, "line": lan_line(line)}));
+                        return;
+                    }
+                    // the first move must keep a forced mate (any distance the solver can see)
+                    let mv = mv_of(&line[0]);
+                    if !keys.contains(&mv) && !mate_preserving_moves(p, 7, &no_draw).contains(&mv) {
+                        ctx.violation("mate-claimed-first-move-spoils", format!("{} | {}", p.fen(), cfg.json()), json!({"fen": p.fen(), "config": cfg.json(), "line": lan_line(line)}));
+                        return;
+                    }
+                }
+            }
+        });
+    }
     // positions with many men: any mate claim with a stated distance (score above the
     // terminal threshold encodes the ply of the mate) must be a forced mate within that many
     // plies by the exhaustive solver, and the first move must keep it
@@ -976,7 +1181,7 @@ pub fn run_c06(ctx: &Ctx) -> i32 {
         ctx.get("searches") + schedules,
         ctx.get("searches") + schedules,
         exh,
-        &format!("{}{}", "tablebase families (quick: all of KRK strided 1/29 for soundness + every KQK/KRK win in <= 3 plies for completeness; thorough: all of KQK, KRK, KPK, wins in <= 5 plies), both colours as the strong side; soundness: depths 1..2 (thorough 4), every BestMove with evaluation >= POS_INF must be a tablebase win whose first move leads to a tablebase loss for the opponent; completeness: mate in n plies searched at depth n, n+1, n+2 x seeds must end with evaluation >= POS_INF and a mate-preserving first move; Fmate sub-family judged by the exhaustive solver; many-men corpus (adversarial, perft and many-move roots and their successors, and the positions of the recorded games in /repo/book at plies 16..60): every mate claim with a stated distance <= 3 (thorough 4) plies must be a forced mate within that distance by the solver", LOOM_RULE),
+        &format!("{}{}", "tablebase families (quick: all of KRK strided 1/29 for soundness + every KQK/KRK win in <= 3 plies for completeness; thorough: all of KQK, KRK, KPK, wins in <= 5 plies), both colours as the strong side; soundness: depths 1..2 (thorough 4), every BestMove with evaluation >= POS_INF must be a tablebase win whose first move leads to a tablebase loss for the opponent; completeness: mate in n plies searched at depth n, n+1, n+2 x seeds must end with evaluation >= POS_INF and a mate-preserving first move; Fmate sub-family judged by the exhaustive solver; promotion keys: the family K+P(7th rank)+{Q,R,B,N} v lone K on an edge square, all positions with a mate in exactly 3 plies whose only keys are promotions while a sibling promotion of the same pawn step fails (quick: every 6th placement, the positions whose keys are all under-promotions, at depths 3..4; thorough: all at 3..5 x seeds); many-men corpus (adversarial, perft and many-move roots and their successors, and the positions of the recorded games in /repo/book at plies 16..60): every mate claim with a stated distance <= 3 (thorough 4) plies must be a forced mate within that distance by the solver", LOOM_RULE),
         ASSUME,
     )
 }
